@@ -362,6 +362,18 @@ def malformed_family(rep):
               "/bkt/k?X-Amz-Signature=&X-Amz-Date=&X-Amz-Algorithm=&X-Amz-Credential=&X-Amz-Expires=99999999999999999999&X-Amz-SignedHeaders="]:
         for m in ("GET", "PUT", "POST", "DELETE", "HEAD", "PATCH"):
             add(m, u)
+    # well-formed authentication data at the edges of the value ranges (dates at both ends of the calendar, durations at both ends of
+    # the integer ranges): the arithmetic on them must not panic
+    for date in ("00010101T000000Z", "99991231T235959Z", "20130524T000000Z", "19700101T000000Z"):
+        for exp in ("0", "1", "604800", "2147483647", "4294967296", "9223372036854775807", "18446744073709551615"):
+            add("GET", "/bkt/k?X-Amz-Algorithm=AWS4-HMAC-SHA256&X-Amz-Credential=AK%%2F%s%%2Fus-east-1%%2Fs3%%2Faws4_request&X-Amz-Date=%s&X-Amz-Expires=%s"
+                "&X-Amz-SignedHeaders=host&X-Amz-Signature=%s" % (date[:8], date, exp, "0" * 64), [("host", "localhost")])
+        add("GET", "/bkt/k", [("host", "localhost"), ("x-amz-date", date), ("x-amz-content-sha256", "UNSIGNED-PAYLOAD"),
+                             ("authorization", "AWS4-HMAC-SHA256 Credential=AK/%s/us-east-1/s3/aws4_request, SignedHeaders=host;x-amz-content-sha256;x-amz-date, Signature=%s" % (date[:8], "0" * 64))])
+    for exp in ("0", "1", "-1", "253402300799", "253402300800", "9223372036854775807", "18446744073709551615", "99999999999999999999"):
+        add("GET", "/bkt/k?AWSAccessKeyId=AK&Expires=%s&Signature=AAAA" % exp, [("host", "localhost")])
+    for d in ("Mon, 01 Jan 0001 00:00:00 GMT", "Fri, 31 Dec 9999 23:59:59 GMT", "Thu, 01 Jan 1970 00:00:00 GMT"):
+        add("GET", "/bkt/k", [("host", "localhost"), ("date", d), ("authorization", "AWS AK:AAAA")])
     hdrs = [[("authorization", "AWS4-HMAC-SHA256 Credential=/, SignedHeaders=, Signature=")], [("authorization", "AWS :")], [("authorization", "AWS4")],
             [("authorization", "a"), ("authorization", "b")], [("x-amz-date", "x"), ("authorization", "AWS4-HMAC-SHA256 Credential=a/20130524/r/s3/aws4_request, SignedHeaders=host, Signature=00")],
             [("x-amz-content-sha256", "zz")], [("content-length", "-1")], [("content-length", "99999999999999999999999")], [("content-type", "multipart/form-data")],
@@ -400,9 +412,54 @@ def malformed_family(rep):
                        "replayer(debug build; not solver-decided)", "holds", time.time() - t0, queries=len(scs))
 
 
+def error_per_operation(rep):
+    """every operation whose backend call fails: the response is ONE well-formed S3 error document with the error's code, message and
+    request id, under the table's status (operations whose model request needs a body get a minimal valid one)"""
+    import re
+    import C03
+    from vlib.smithy import Model
+    t0 = time.time()
+    model = Model()
+    ops, scs = [], []
+    for op in sorted(model.ops):
+        try:
+            rq = C03.model_request(op, C03.BODIES.get(op))
+        except Exception:      # noqa: BLE001
+            continue
+        ops.append(op)
+        scs.append({"config": {}, "request": rq, "backend": {"result": "err:NoSuchUpload", "message": "gone & <lost>", "request_id": "RID-7"}})
+    outs = replay.run_scenarios(scs)
+    rep.traces_validated += len(scs)
+    bad, reached = [], 0
+    for op, sc, o in zip(ops, scs, outs):
+        if not any(e["ev"].startswith("s3.") for e in o.get("events", [])):
+            continue                  # the model request is refused before the backend (needs a richer body): not this obligation
+        reached += 1
+        if sc["request"]["method"] == "HEAD":
+            if o.get("status") != 404:
+                bad.append((op, "status %s" % o.get("status"), ""))
+            continue
+        body = o.get("body_text", "").strip()
+        want = "<Error><Code>NoSuchUpload</Code><Message>gone &amp; &lt;lost&gt;</Message><RequestId>RID-7</RequestId></Error>"
+        decl = len(re.findall(r"<\?xml", body))
+        doc = re.sub(r"^<\?xml[^>]*\?>", "", body)
+        if decl > 1 or doc != want or (o.get("status") != 404 and op != "CompleteMultipartUpload"):
+            bad.append((op, "status %s, %d XML declarations" % (o.get("status"), decl), body[:200]))
+    if reached < 60:
+        rep.fail_inconclusive("error rendering per operation: only %d operations reached the backend" % reached)
+        return
+    if bad:
+        res = rep.violation("render:operation:%s" % bad[0][0], "backend error of %s is rendered as %s: %s (%d operations deviate)" % (
+            bad[0][0], bad[0][1], bad[0][2], len(bad)), rep.save_cex("render_per_operation", bad), confirmed=True)
+        rep.obligation("error rendering per operation", "replayer", res, time.time() - t0)
+    else:
+        rep.obligation("witnesses: a failing backend call of each of %d operations is answered with exactly one well-formed error document (code, "
+                       "escaped message, request id) under the table's status" % reached, "replayer(not solver-decided)", "holds", time.time() - t0, queries=reached)
+
+
 def run(rep, tier):
     rep.engines["z3"] = z3.get_version_string()
-    for part in (status_table, rendering, funnel, malformed_family):
+    for part in (status_table, rendering, funnel, malformed_family, error_per_operation):
         try:
             part(rep)
         except (rsx.Unsupported, rsx.PathBudget) as u:
